@@ -608,7 +608,12 @@ class Exec:
                     root_logger.addHandler(h)
 
     def _seed_ticks(self, j, k):
+        # every per-event random stream restarts at a step boundary, so that a
+        # replay of one branch sees the same ticks and short reads as the
+        # enumeration that found it
         self.world.tick_rng.seed(f"{self.knobs['tick_seed']}:{j}:{k}")
+        if self.world.short_reads is not None:
+            self.world.short_reads.seed(f"{self.knobs['tick_seed']}:sr:{j}")
 
     def probe_load(self, step_i, how):
         """Branch: a fresh fault-free load on a copy of the current durable
@@ -895,10 +900,31 @@ def shrink_candidates(obj):
             c = copy.deepcopy(obj)
             c["history"][j]["fault"]["kind"] = "crash"
             yield c
+        if st["op"] == "LOAD_FAULT" and isinstance(st["fault"].get("at"), int):
+            at = st["fault"]["at"]
+            for na in sorted({at // 2, at - 5, at - 2, at - 1}):
+                if 0 <= na < at:
+                    c = copy.deepcopy(obj)
+                    c["history"][j]["fault"]["at"] = na
+                    yield c
+        if st["op"] == "RACE" and st["sched"]["kind"] == "sandwich":
+            for key in ("i", "j"):
+                v = st["sched"].get(key)
+                if isinstance(v, int):
+                    for nv in sorted({v // 2, v - 3, v - 1}):
+                        if 0 <= nv < v:
+                            c = copy.deepcopy(obj)
+                            c["history"][j]["sched"][key] = nv
+                            yield c
     # contents: unused versions, fewer records, shorter records
     used = {0} | {st["v"] for st in hist if st["op"] == "REWRITE"}
+    tiny = {"records": [{"name": "a", "desc": "", "seq": "A", "width": 60, "crlf": False}], "final_newline": True}
     for vi, spec in enumerate(obj["contents"]):
         if vi not in used:
+            if spec != tiny:
+                c = copy.deepcopy(obj)
+                c["contents"][vi] = copy.deepcopy(tiny)
+                yield c
             continue
         recs = spec["records"]
         if len(recs) > 1:
